@@ -17,9 +17,10 @@ def load(prop):
     return importlib.import_module(f"lvf.checks.{prop.lower()}")
 
 
-def run_shard(mod, prop, tier, seed, shard, shards, replay=None):
+def run_shard(mod, prop, tier, seed, shard, shards, replay=None, checkpoint=None):
     warnings.simplefilter("ignore")
     ctx = Ctx(prop, tier, seed, shard, shards, replay)
+    ctx.checkpoint = checkpoint
     import faulthandler
 
     faulthandler.enable()
@@ -53,7 +54,7 @@ def main(argv=None):
 
     if a.shard:
         i, n = map(int, a.shard.split("/"))
-        res = run_shard(mod, prop, a.tier, a.seed, i, n)
+        res = run_shard(mod, prop, a.tier, a.seed, i, n, checkpoint=a.out + ".partial")
         with open(a.out, "w") as f:
             json.dump(res, f, default=repr)
         return 0
@@ -85,12 +86,18 @@ def main(argv=None):
                     p.kill()
                     p.wait()
                     inconclusive.append(f"shard {i} hit the {timeout}s watchdog")
+                    if os.path.exists(out + ".partial"):
+                        with open(out + ".partial") as f:
+                            results.append(json.load(f))
                     continue
                 finally:
                     log.close()
                 if p.returncode != 0 or not os.path.exists(out):
                     tail = open(os.path.join(tmp, f"shard{i}.log")).read()[-3000:]
                     inconclusive.append(f"shard {i} crashed (rc={p.returncode}): {tail}")
+                    if os.path.exists(out + ".partial"):
+                        with open(out + ".partial") as f:
+                            results.append(json.load(f))
                     continue
                 with open(out) as f:
                     results.append(json.load(f))
